@@ -337,6 +337,13 @@ class Session:
             with open(os.path.join(self.scratch, other + ".teal"), "w", encoding="utf-8") as f:
                 f.write(self.source(other))
             skip.add(other + ".teal")
+        # files already there (kept from earlier runs of this session) and their stamps
+        before: Dict[str, Tuple[int, int]] = {}
+        for root, _dirs, names in os.walk(self.scratch):
+            for n in names:
+                p0 = os.path.join(root, n)
+                st0 = os.stat(p0)
+                before[os.path.relpath(p0, self.scratch)] = (st0.st_size, st0.st_mtime_ns)
         argv = ["tealer"] + [a.replace("{C}", fname) for a in op["argv"]]
         old_argv = sys.argv
         sys.argv = argv
@@ -373,6 +380,9 @@ class Session:
                 rel = os.path.relpath(p, self.scratch)
                 if rel in skip:
                     continue
+                st1 = os.stat(p)
+                if before.get(rel) == (st1.st_size, st1.st_mtime_ns):
+                    continue  # left by an earlier run and not touched by this one
                 if n.endswith(".json"):
                     with open(p, encoding="utf-8") as f:
                         files.append([rel, f.read()])
@@ -607,7 +617,10 @@ class Session:
         ev["addr"] = id(ev) & 0xFFFFFFF
         if self.check_immut:
             ev["immut"] = self.immut_check()
-        self.clean_scratch()
+        if not op.get("keep_files"):
+            # keep_files: the export directory is durable state that outlives a run (a later run
+            # finds the files an earlier one wrote)
+            self.clean_scratch()
         return ev
 
     def run(self) -> Dict[str, Any]:
